@@ -206,6 +206,7 @@ func main() {
 
 	rep.Set("probes", names)
 	rep.Set("limits_relative_to_C", []string{"C-1", "C", "C+1", "0", "-1", "maxInt"})
+	evals.Add(dupGoNameChecks(rep))
 	os.Exit(rep.Finish(evals.Load(), int64(rep.DistinctLen("nontrivial_cases"))))
 }
 
